@@ -228,6 +228,10 @@ def replay(ctx: fw.Ctx, spec: dict, rec: dict) -> int:
                 if got != want or got.startswith(("MUTATED", "EXC")):
                     st.fail(f"call {i} ({op[0]}): {got[:200]} vs isolated {want[:200]}", case)
                     break
+                fr = fresh_results([op], root).get(json.dumps(op, sort_keys=True, default=str))
+                if op[0] != "lexer_next" and fr is not None and got != fr:
+                    st.fail(f"call {i} ({op[0]}): {got[:200]} vs the same call in a fresh interpreter {fr[:200]}", case)
+                    break
         finally:
             shutil.rmtree(root, ignore_errors=True)
     elif kind == "comments":
@@ -2898,6 +2902,12 @@ class ApiWorld:
                         t = lx.get_next_token()
                         out.append(f"{t.type.name}:{t.value!r}@{t.line}:{t.column}")
                     return " ".join(out)
+                if kind == "parse_opts":
+                    from tumfl.parser import Parser
+                    p = Parser(op[1], typed=op[2], ignore_unicode_errors=op[3])
+                    ast = p.parse_chunk()
+                    p._assert(TokenType.EOF)  # noqa: SLF001
+                    return "ast:" + struct_json(ast)
                 if kind == "parser_typed":
                     from tumfl.parser import Parser
                     p = Parser(op[1], typed=True)
@@ -2953,8 +2963,41 @@ def random_history(r: random.Random, n: int) -> list[tuple]:
         elif k < 0.95 and nlex:
             ops.append(("lexer_next", r.randrange(nlex), r.choice([1, 1, 2])))
         else:
-            ops.append(("parser_typed", r.choice(["x as y", "is = 1", "local as"])))
+            if r.random() < 0.5:
+                ops.append(("parser_typed", r.choice(["x as y", "is = 1", "local as"])))
+            else:
+                # constructor options: the same text lexed leniently and strictly, in either order
+                ops.append(("parse_opts", r.choice(['x = "\\200"', "x = '\\xff' .. '\\65'", 'x = "a\\u{D800}b"', "x = 1 as y", 'return "\\128\\255"']),
+                            r.random() < 0.3, r.random() < 0.5))
     return ops
+
+
+_FRESH_CACHE: dict = {}
+
+
+def fresh_results(ops: list[tuple], root: Path) -> dict:
+    """each distinct op evaluated ONCE in its own fresh interpreter (in parallel); lexer_next ops depend on their instance's history and are not included"""
+    import concurrent.futures
+    import subprocess as sp
+    todo = []
+    for op in ops:
+        k = json.dumps(op, sort_keys=True, default=str)
+        if op[0] != "lexer_next" and k not in _FRESH_CACHE and k not in [t[0] for t in todo]:
+            todo.append((k, op))
+
+    def one(item):
+        k, op = item
+        pr = sp.run([sys.executable, str(Path(__file__).resolve().parent / "isoworker.py"), str(root)], input=json.dumps(op, default=str) + "\n",
+                    capture_output=True, text=True, timeout=120)
+        try:
+            return k, json.loads(pr.stdout.strip().split("\n")[-1])
+        except Exception:  # noqa: BLE001
+            return k, None
+
+    with concurrent.futures.ThreadPoolExecutor(max_workers=12) as ex:
+        for k, v in ex.map(one, todo):
+            _FRESH_CACHE[k] = v
+    return _FRESH_CACHE
 
 
 def isolated_result(op: tuple, history: list[tuple], root: Path) -> str:
@@ -2976,6 +3019,7 @@ def run_c14(ctx: fw.Ctx) -> None:
     root = materialise(C14_TREE)
     try:
         st = ctx.stream("random histories of API calls, each result compared with the isolated call")
+        all_results: list = []
         for _ in range(ctx.n(300, 6000)):
             hist = random_history(r, r.randint(2, 12))
             w = ApiWorld(root)
@@ -2986,11 +3030,21 @@ def run_c14(ctx: fw.Ctx) -> None:
                 if got.startswith(("MUTATED", "EXC")):
                     st.fail(f"call {i} {op[0]}: {got[:200]}", case)
                     break
-                # isolated: fresh interpreter state is approximated by a fresh world whose own lexer history is replayed
+                # isolated: a fresh world whose own lexer history is replayed (same interpreter) ...
                 want = isolated_result(op, hist[: i + 1], root)
                 if got != want:
                     st.fail(f"call {i} ({op[0]}) returns a different result than in isolation", dict(case, index=i, got=got[:500], isolated=want[:500]))
                     break
+                all_results.append((case, i, op, got))
+        # ... and the same call in a FRESH interpreter (module-level caches cannot leak into that one)
+        fresh = fresh_results([op for _, _, op, _ in all_results], root)
+        reported = set()
+        for case, i, op, got in all_results:
+            k = json.dumps(op, sort_keys=True, default=str)
+            want = fresh.get(k)
+            if op[0] != "lexer_next" and want is not None and got != want and k not in reported:
+                reported.add(k)
+                st.fail(f"call {i} ({op[0]}) returns a different result than the same call in a fresh interpreter", dict(case, index=i, got=got[:500], fresh=want[:500]))
         st2 = ctx.stream("the same histories in 4 concurrent threads (switch interval 1e-6)")
         import sys as _sys
         old = _sys.getswitchinterval()
